@@ -20,8 +20,11 @@ ASSUMPTIONS = [
     'outward side positive',
     'ELL with positive last entry: the repository\'s MCNP-validated reading is '
     'used (regression monitor for that sub-case only)',
-    'RHP/HEX with 9 entries: facets 3-6 are not judged (the manual does not '
-    'fix which of the two rotated apothems comes first)',
+    'RHP/HEX with 9 entries: the manual does not fix the sense in which the '
+    'derived apothems s, t follow r; facets 3-6 are judged against both '
+    'senses and must agree with one of them for every probe of the case '
+    '(s at 60 and t at 120 degrees from r in the same sense, facets 3/5 at '
+    'their tips, 4/6 opposite)',
     'TRC facet 1 is not judged beyond the apex of its cone',
     'TRIPOLI-4 conventions of vt/t4eval.py; TatSu shim',
 ]
@@ -49,8 +52,6 @@ def facet_leaves(kind, params):
     if kind in ('sph', 'ell'):
         return []
     facets = list(range(1, nfac + 1))
-    if kind in ('rhp', 'hex') and len(params) == 9:
-        facets = [1, 2, 7, 8]
     leaves = []
     for k in facets:
         leaves.append(M.S(1, facet=k))
@@ -132,6 +133,24 @@ def run(case, ctx):
     if res is None:
         return out
     sides, mism, pts, t4 = res
+    if sur.kind in ('rhp', 'hex') and len(sur.params) == 9:
+        out.counters['c03.rhp9-facets-3-6-judged'] += 1
+        if mism:
+            # the other sense of rotation of the derived apothems: the same
+            # probes (a copy of the case, hence of its generator state)
+            # judged against the mirrored reading
+            import copy
+            from ..core import Outcome as _Outcome
+            ref.RHP9_SENSE = -1
+            try:
+                res2 = region_agreement(copy.deepcopy(case), ctx, _Outcome(),
+                                        deck, run_, n_uniform=2500,
+                                        unjudged=unjudged_mask(deck))
+            finally:
+                ref.RHP9_SENSE = 1
+            if res2 is not None and not res2[1]:
+                out.counters['c03.rhp9-other-sense-accepted'] += 1
+                mism = []
     out.nontrivial = out.judged >= 200
     out.sample = {'card': ' '.join(sur.atoms()), 'cells': len(deck.cells) - 1,
                   'probes': int(len(pts))}
